@@ -143,6 +143,10 @@ def run(ctx):
             mjson.uninstall()
 
     codecs = {
+        # the two oldest protocols are refused today (TypeError: a class with __slots__ and no __getstate__); refused is fine,
+        # a twin is not
+        "pickle0": lambda x: pickle.loads(pickle.dumps(x, 0)),
+        "pickle1": lambda x: pickle.loads(pickle.dumps(x, 1)),
         "pickle2": lambda x: pickle.loads(pickle.dumps(x, 2)),
         "pickle3": lambda x: pickle.loads(pickle.dumps(x, 3)),
         "pickle4": lambda x: pickle.loads(pickle.dumps(x, 4)),
@@ -186,6 +190,13 @@ def run(ctx):
             before = ident(x)
             try:
                 y = fn(x)
+            except TypeError as e:
+                if cname in ("pickle0", "pickle1"):
+                    ctx.count(f"oldest_pickle_protocols_refused/{kind}")
+                    continue
+                shape = "compound-unit" if kind == "unit" and len(x.factors) > 1 or (kind == "unit" and next(iter(x.factors)) is not x) else kind
+                ctx.violation(f"C15:{cname}:raised-{type(e).__name__}:{shape}", f"{cname} round trip of {label} raised {type(e).__name__}: {str(e)[:150]}", {"kind": kind, "object": label, "codec": cname})
+                continue
             except Exception as e:
                 shape = "compound-unit" if kind == "unit" and len(x.factors) > 1 or (kind == "unit" and next(iter(x.factors)) is not x) else kind
                 ctx.violation(f"C15:{cname}:raised-{type(e).__name__}:{shape}", f"{cname} round trip of {label} raised {type(e).__name__}: {str(e)[:150]}", {"kind": kind, "object": label, "codec": cname})
@@ -265,6 +276,9 @@ def run(ctx):
             try:
                 y = fn(q)
             except Exception as e:
+                if cname in ("pickle0", "pickle1") and isinstance(e, TypeError):
+                    ctx.count("oldest_pickle_protocols_refused/quantity")
+                    continue
                 if uses_unit_str:
                     ustr_class = ustr_class or c13.classify_unit_str(m, u)
                     if ustr_class in c13_known:
